@@ -11,7 +11,7 @@ from ..loader import AnalysisError, src_of
 from ..report import Result, Violation
 
 TECHNIQUE = ("abstract interpretation of unit/type creation with an effect log (registration must-pass-through, "
-             "insert-if-absent, validation tables, scale = definition), initialisation-order rule over the call graph")
+             "insert-if-absent, validation tables, scale = definition), class creation evaluated through the metaclass protocol")
 
 
 def run_entry(prog, res, rule, site, case, body, judge, max_depth=12, min_paths=1):
@@ -105,9 +105,10 @@ def run(prog, tier) -> Result:
         "and the per-type queries read these maps; R15.4: the factory dispatches to the unit's type; R15.5: the "
         "definition handed to unit creation denotes exactly the declared value (quantity: amount x unit; term; "
         "product of the given base-type units with the type definition's exponents) and definitions of another type "
-        "or dimension are rejected; R15.6: no map of a type is mutated before it exists (initialisation order of "
-        "the metaclass protocol); R15.7: the reference unit of a derived type is defined as the product of the base "
-        "types' reference units with scale 1; R15.8: one type per dimension.")
+        "or dimension are rejected; R15.7: class creation is evaluated through the metaclass protocol: the reference "
+        "unit of a derived type is defined as the product of the base types' reference units with scale 1, the new "
+        "type's own unit map lists exactly its reference unit and no other type's map is written (so no map is "
+        "mutated before it exists); R15.8: one type per dimension.")
     res.trusted = ["CPython metaclass protocol (__new__ then __init__)", "C01 rule R01.3 (scale from the normalised definition)"]
     res.assumptions = ["NOT decided: that the registry's term equality identifies 'another dimension' for every catalogue (C07)"]
 
@@ -327,41 +328,10 @@ def run(prog, tier) -> Result:
             run_entry(prog, res, "R15.7", "QuantityMeta.__new__/__init__", f"derived={derived} ref_unit_symbol={ref}",
                       cls_body(derived, ref), judge_cls(derived, ref))
 
-    # ---- R15.6 initialisation order (B3)
-    writes = inventory(prog, ["quantity"])
-    cg = CallGraph(prog)
-    meta_new = prog.method("QuantityMeta", "__new__")
-    meta_init = prog.method("QuantityMeta", "__init__")
-    assigned_in_new = {w.state for w in writes if w.func == "QuantityMeta.__new__" and w.kind == "attr-store"}
-    assigned_in_init = {w.state for w in writes if w.func == "QuantityMeta.__init__" and w.kind == "attr-store"}
-    reach_new = cg.reachable_from(["QuantityMeta.__new__"])
-    n_mut = 0
-    for w in writes:
-        if w.kind in ("item-store", "mutcall") and w.func in reach_new and w.func != "QuantityMeta.__new__" \
-                and w.base_src.startswith("cls.") and w.state in assigned_in_init:
-            n_mut += 1
-            # the attribute must already be assigned by __new__ before the call chain that reaches this mutation
-            ok = False
-            if w.state in assigned_in_new:
-                first_assign = min(x.node.lineno for x in writes if x.func == "QuantityMeta.__new__"
-                                   and x.state == w.state and x.kind == "attr-store")
-                calls = []
-                for n in ast.walk(meta_new.node):
-                    if isinstance(n, ast.Call) and isinstance(n.func, ast.Attribute) and \
-                            isinstance(n.func.value, ast.Name):      # a method call on the new class object
-                        for cand in cg.by_name.get(n.func.attr, []):
-                            if cand.cls is not None and cand.cls.name in ("QuantityMeta", "MoneyMeta") and \
-                                    w.func in cg.reachable_from([cand.qualname]):
-                                calls.append(n)
-                ok = bool(calls) and all(first_assign < c.lineno for c in calls)
-            res.ob("R15.6", w.func, f"cls.{w.state} mutated during __new__", ok,
-                   f"{w.module.rel()}:{w.node.lineno} `{src_of(w.node)[:80]}` runs while the metaclass __new__ is still "
-                   f"executing, but cls.{w.state} is first assigned in __init__: the write goes to the map inherited "
-                   f"from the base class (Quantity), which then lists units of all types",
-                   sig=f"cls.{w.state} mutated before it is initialised")
+    # (R15.6, the initialisation-order rule over the call graph, became redundant: R15.7 evaluates class creation and
+    # requires the new type's own unit map to list exactly its reference unit, with no write to any other map)
 
     res.require("R15.1", 2)
     res.require("R15.5", 13)
     res.require("R15.7", 4)
-    res.require("R15.6", 1)
     return res
